@@ -24,6 +24,7 @@ import (
 type pos struct{ X, Y int64 }
 type vel struct{ V int64 }
 type childOf struct{ ecs.RelationMarker }
+type childOf2 struct{ ecs.RelationMarker }
 type tag struct{ T int32 }
 type c4 struct{ A int8 }
 type c5 struct{ A int16 }
@@ -419,6 +420,31 @@ func scenarios() []scenario {
 			}
 		}
 		exp := []tres{{visited: fx.children[0], sum: sumOf(w, fx.children[0])}, {visited: fx.children[0], sum: sumOf(w, fx.children[0])}}
+		return []func(*tres){body, body}, exp, finalCheck(w, 0)
+	}})
+
+	// --- the same with TWO type based relation arguments (the multi-relation path resolves the component IDs
+	//     lazily; the caller's slice must not be written to)
+	out = append(out, scenario{name: "shared-two-relation-arguments/2thr", threads: 2, build: func() ([]func(*tres), []tres, func() string) {
+		w := ecs.NewWorld(4)
+		flt := ecs.NewFilter3[pos, childOf, childOf2](w)
+		m := ecs.NewMap3[pos, childOf, childOf2](w)
+		p1, p2 := w.NewEntity(), w.NewEntity()
+		var kids []ecs.Entity
+		for k := 0; k < 2; k++ {
+			kids = append(kids, m.NewEntity(&pos{X: int64(k + 1)}, &childOf{}, &childOf2{}, ecs.RelIdx(1, p1), ecs.RelIdx(2, p2)))
+		}
+		m.NewEntity(&pos{X: 50}, &childOf{}, &childOf2{}, ecs.RelIdx(1, p2), ecs.RelIdx(2, p1))
+		rels := []ecs.Relation{ecs.Rel[childOf](p1), ecs.Rel[childOf2](p2)}
+		body := func(r *tres) {
+			q := flt.Query(rels...)
+			for q.Next() {
+				ps, _, _ := q.Get()
+				r.visited = append(r.visited, q.Entity())
+				r.sum += ps.X
+			}
+		}
+		exp := []tres{{visited: kids, sum: 3}, {visited: kids, sum: 3}}
 		return []func(*tres){body, body}, exp, finalCheck(w, 0)
 	}})
 
